@@ -116,7 +116,7 @@ func c11Parse(toks []string) (*c11Round, error) {
 		case name[0] == 'C':
 			for _, x := range s[1:] {
 				n, err := strconv.Atoi(x)
-				if err != nil || n < 0 || n >= len(c11Targets)+c11NV {
+				if err != nil || n < 0 || n >= c11SpecBase+len(c11Special) {
 					return nil, fmt.Errorf("bad target")
 				}
 				th.targets = append(th.targets, n)
@@ -126,7 +126,7 @@ func c11Parse(toks []string) (*c11Round, error) {
 				return nil, fmt.Errorf("bad ext")
 			}
 			f, e1 := strconv.Atoi(s[2])
-			if e1 != nil || f < 0 || f >= len(c11Targets) {
+			if e1 != nil || !c11IsIntLoc(f) {
 				return nil, fmt.Errorf("bad ext")
 			}
 			th.ops = append(th.ops, c11Op{kind: "ext", f: f})
@@ -136,8 +136,10 @@ func c11Parse(toks []string) (*c11Round, error) {
 			}
 			f, e1 := strconv.Atoi(s[2])
 			v, e2 := strconv.Atoi(s[4])
-			if e1 != nil || e2 != nil || f < 0 || f >= len(c11Targets)+c11NV || (s[3] != "ret" && s[3] != "cb" && s[3] != "cbo" && s[3] != "tab" && s[3] != "tin") ||
-				(f >= len(c11Targets) && (s[3] != "tab" || name[0] != 'S' || s[1] != "mock")) {
+			isVar := f >= len(c11Targets) && f < c11SpecBase
+			if e1 != nil || e2 != nil || f < 0 || f >= c11SpecBase+len(c11Special) || (s[3] != "ret" && s[3] != "cb" && s[3] != "cbo" && s[3] != "tab" && s[3] != "tin") ||
+				(isVar && (s[3] != "tab" || name[0] != 'S' || s[1] != "mock")) ||
+				(f >= c11SpecBase && (s[3] == "cbo" || s[1] != "mock" || (f >= c11SpecBase+4 && s[3] == "cb"))) {
 				return nil, fmt.Errorf("bad mock")
 			}
 			th.ops = append(th.ops, c11Op{kind: "mock", f: f, rk: s[3], v: v, name: s[1] == "mockn"})
@@ -177,7 +179,7 @@ type c11B struct {
 
 func (cb *c11B) mock(op c11Op) {
 	b := cb.b
-	if op.f >= len(c11Targets) { // variadic steady target: table keyed on fixed parameters + variadic elements
+	if op.f >= len(c11Targets) && op.f < c11SpecBase { // variadic steady target: table keyed on fixed parameters + variadic elements
 		c11VarMock(b, op.f-len(c11Targets), op.v)
 		return
 	}
@@ -185,7 +187,7 @@ func (cb *c11B) mock(op c11Op) {
 	if op.name { // addressed by name: symbol table lookup (unexports2.FindFuncByName) on every operation
 		m = b.Pkg(c11Pkg).ExportFunc(fmt.Sprintf("c11T%02d", op.f)).As(func(int) int { return 0 })
 	} else {
-		m = b.Func(c11Targets[op.f])
+		m = b.Func(c11Fn(op.f))
 	}
 	delete(cb.whens, op.f)
 	switch op.rk {
@@ -225,10 +227,10 @@ func c11Call(f int, a int) (res string) {
 			res = "P"
 		}
 	}()
-	if f >= len(c11Targets) {
+	if f >= len(c11Targets) && f < c11SpecBase {
 		return strconv.Itoa(c11VarCall(f-len(c11Targets), a))
 	}
-	return strconv.Itoa(c11Targets[f](a))
+	return strconv.Itoa(c11Fn(f)(a))
 }
 
 // text segment of this binary: [start,end) from /proc/self/maps containing addr
@@ -278,10 +280,10 @@ func c11Raw(addr uintptr, n int) []byte {
 }
 
 func c11Entry(i int) uintptr {
-	if i >= len(c11Targets) {
+	if i >= len(c11Targets) && i < c11SpecBase {
 		return reflect.ValueOf(c11VarTargets[i-len(c11Targets)]).Pointer()
 	}
-	return reflect.ValueOf(c11Targets[i]).Pointer()
+	return reflect.ValueOf(c11Fn(i)).Pointer()
 }
 
 // TestVerifC11Child runs one round in this process and prints the observation on stdout as "OBS <text>".
@@ -426,6 +428,9 @@ func TestVerifC11Child(t *testing.T) {
 						atomic.AddInt64(&neighBad, 1)
 					}
 				}
+				if c11Ident(n+3) != n+3 { // called by the function-literal targets; nobody's target
+					atomic.AddInt64(&neighBad, 1)
+				}
 			}
 		}(n)
 	}
@@ -464,6 +469,15 @@ func TestVerifC11Child(t *testing.T) {
 			final += fmt.Sprintf(",beh%d", i)
 			break
 		}
+	}
+	for i := range c11Special {
+		if c11Special[i](2) != 2*7+c11SpecBase+i {
+			final += fmt.Sprintf(",beh%d", c11SpecBase+i)
+			break
+		}
+	}
+	if c11Ident(5) != 5 {
+		final += ",ident"
 	}
 	for v := 0; v < c11NV; v++ {
 		for a := 1; a <= 5; a++ {
@@ -531,7 +545,7 @@ func TestVerifC11Child(t *testing.T) {
 func TestVerifC11(t *testing.T) {
 	out := vh.OpenOut()
 	defer out.Close()
-	tmo := 600 * time.Second // a round takes ~1-3 s; generous so that a loaded machine is not mistaken for a hang
+	tmo := 180 * time.Second // a round takes ~1-3 s (60x headroom); a timeout is re-run once, so a reproduced hang is a verdict within 6 minutes
 	for _, op := range vh.ReadOps() {
 		if len(op.Toks) == 0 || op.Toks[0] != "c11.round" {
 			continue
